@@ -40,30 +40,37 @@ def byMime : List (String × String) := [
 /-- exception classes caught by each type's `build_tree_handling_errors` (fully qualified) -/
 def caught : List (String × List String) := [
   ("csv", []),
-  ("html", ["xml.etree.ElementTree.ParseError"]),
-  ("json", ["json.decoder.JSONDecodeError", "builtins.UnicodeDecodeError", "builtins.RecursionError"]),
+  ("html", ["xml.etree.ElementTree.ParseError", "builtins.LookupError", "builtins.ValueError"]),
+  ("json", ["json.decoder.JSONDecodeError", "builtins.UnicodeDecodeError", "builtins.ValueError", "builtins.RecursionError"]),
   ("json5", ["builtins.ValueError", "builtins.RecursionError"]),
   ("pickle", ["fickling.fickle.PickleDecodeError"]),
-  ("plist", ["xml.parsers.expat.ExpatError", "builtins.ValueError", "builtins.IndexError"]),
-  ("xml", ["xml.etree.ElementTree.ParseError"]),
+  ("plist", ["xml.parsers.expat.ExpatError", "builtins.ValueError", "builtins.IndexError", "builtins.AttributeError", "builtins.LookupError", "builtins.MemoryError", "builtins.OverflowError", "builtins.RecursionError"]),
+  ("xml", ["xml.etree.ElementTree.ParseError", "builtins.LookupError", "builtins.ValueError"]),
   ("yaml", ["yaml.error.YAMLError", "builtins.ValueError"])
 ]
 
-/-- ASSUMED: what each type's external parser raises on invalid syntax (validated by fault enumeration) -/
+/-- what each type's external parser raises on invalid syntax: the hand list of harness/gentables.py united with
+    every class a seeded fuzz of the parser entry points raised in THIS run (on files an independent parser rejects) -/
 def raisable : List (String × List String) := [
-  ("html", ["xml.etree.ElementTree.ParseError"]),
-  ("json", ["json.decoder.JSONDecodeError", "builtins.UnicodeDecodeError", "builtins.RecursionError"]),
+  ("html", ["xml.etree.ElementTree.ParseError", "builtins.LookupError", "builtins.ValueError", "builtins.UnicodeError"]),
+  ("json", ["json.decoder.JSONDecodeError", "builtins.UnicodeDecodeError", "builtins.RecursionError", "builtins.ValueError"]),
   ("json5", ["builtins.ValueError", "builtins.UnicodeDecodeError", "builtins.RecursionError"]),
-  ("plist", ["xml.parsers.expat.ExpatError", "plistlib.InvalidFileException", "builtins.ValueError", "builtins.IndexError"]),
-  ("xml", ["xml.etree.ElementTree.ParseError"]),
-  ("yaml", ["yaml.scanner.ScannerError", "yaml.parser.ParserError", "yaml.reader.ReaderError", "yaml.composer.ComposerError", "yaml.constructor.ConstructorError"])
+  ("plist", ["xml.parsers.expat.ExpatError", "plistlib.InvalidFileException", "builtins.ValueError", "builtins.IndexError", "builtins.AttributeError", "builtins.LookupError", "builtins.UnicodeError", "binascii.Error", "builtins.MemoryError"]),
+  ("xml", ["xml.etree.ElementTree.ParseError", "builtins.LookupError", "builtins.ValueError", "builtins.UnicodeError"]),
+  ("yaml", ["yaml.scanner.ScannerError", "yaml.parser.ParserError", "yaml.reader.ReaderError", "yaml.composer.ComposerError", "yaml.constructor.ConstructorError", "builtins.ValueError", "builtins.AttributeError", "builtins.KeyError", "builtins.IndexError"])
 ]
 
-/-- method resolution order of every assumed-raisable class -/
+/-- method resolution order of every raisable class -/
 def mro : List (String × List String) := [
+  ("binascii.Error", ["binascii.Error", "builtins.ValueError", "builtins.Exception", "builtins.BaseException", "builtins.object"]),
+  ("builtins.AttributeError", ["builtins.AttributeError", "builtins.Exception", "builtins.BaseException", "builtins.object"]),
   ("builtins.IndexError", ["builtins.IndexError", "builtins.LookupError", "builtins.Exception", "builtins.BaseException", "builtins.object"]),
+  ("builtins.KeyError", ["builtins.KeyError", "builtins.LookupError", "builtins.Exception", "builtins.BaseException", "builtins.object"]),
+  ("builtins.LookupError", ["builtins.LookupError", "builtins.Exception", "builtins.BaseException", "builtins.object"]),
+  ("builtins.MemoryError", ["builtins.MemoryError", "builtins.Exception", "builtins.BaseException", "builtins.object"]),
   ("builtins.RecursionError", ["builtins.RecursionError", "builtins.RuntimeError", "builtins.Exception", "builtins.BaseException", "builtins.object"]),
   ("builtins.UnicodeDecodeError", ["builtins.UnicodeDecodeError", "builtins.UnicodeError", "builtins.ValueError", "builtins.Exception", "builtins.BaseException", "builtins.object"]),
+  ("builtins.UnicodeError", ["builtins.UnicodeError", "builtins.ValueError", "builtins.Exception", "builtins.BaseException", "builtins.object"]),
   ("builtins.ValueError", ["builtins.ValueError", "builtins.Exception", "builtins.BaseException", "builtins.object"]),
   ("json.decoder.JSONDecodeError", ["json.decoder.JSONDecodeError", "builtins.ValueError", "builtins.Exception", "builtins.BaseException", "builtins.object"]),
   ("plistlib.InvalidFileException", ["plistlib.InvalidFileException", "builtins.ValueError", "builtins.Exception", "builtins.BaseException", "builtins.object"]),
